@@ -74,15 +74,12 @@ func ruleR05_2(c *Check) {
 			for _, d := range flatten(is.Cond, token.LOR) {
 				parts := flatten(d, token.LAND)
 				var hasPos, hasLeq bool
+				is := func(name string) func(ast.Expr) bool { return func(e ast.Expr) bool { return role(e) == name } }
 				for _, p := range parts {
-					be, ok := unparen(p).(*ast.BinaryExpr)
-					if !ok {
-						continue
-					}
-					if role(be.X) == "sinceTs" && be.Op == token.GTR && role(be.Y) == "zero" {
+					if op, ok := w.cmpRoles(p, true, is("sinceTs"), is("zero")); ok && (op == token.GTR || op == token.NEQ) {
 						hasPos = true
 					}
-					if role(be.X) == "version" && role(be.Y) == "sinceTs" && be.Op == token.LEQ {
+					if op, ok := w.cmpRoles(p, true, is("version"), is("sinceTs")); ok && op == token.LEQ {
 						hasLeq = true
 					}
 				}
@@ -149,17 +146,21 @@ func ruleR05_3(c *Check) {
 		okv := false
 		cond := unparen(is.Cond)
 		if be, ok := cond.(*ast.BinaryExpr); ok {
-			switch {
-			case w.isCallTo(be.X, w.Func("table.TableInterface.MaxVersion")) || (isCallNamed(w, be.X, "MaxVersion")):
-				okv = (be.Op == token.LSS || be.Op == token.LEQ) && w.fieldOf(be.Y) == since
-			case w.isCallTo(be.X, ctp):
-				arg := unparen(be.X).(*ast.CallExpr).Args[0]
-				v, _ := w.constInt(be.Y)
-				if isCallNamed(w, arg, "Smallest") {
-					okv = be.Op == token.GTR && v == 0
+			named := func(n string) func(ast.Expr) bool { return func(e ast.Expr) bool { return isCallNamed(w, e, n) } }
+			ctpOf := func(n string) func(ast.Expr) bool {
+				return func(e ast.Expr) bool {
+					c, ok := unparen(e).(*ast.CallExpr)
+					return ok && w.Callee(c) == types.Object(ctp) && len(c.Args) == 1 && isCallNamed(w, c.Args[0], n)
 				}
-				if isCallNamed(w, arg, "Biggest") {
-					okv = be.Op == token.LSS && v == 0
+			}
+			switch {
+			case be.Op != token.LAND && be.Op != token.LOR:
+				if op, ok := w.cmpRoles(be, true, named("MaxVersion"), w.isField(since)); ok {
+					okv = op == token.LSS || op == token.LEQ
+				} else if op, ok := w.cmpRoles(be, true, ctpOf("Smallest"), w.isConst(0)); ok {
+					okv = op == token.GTR
+				} else if op, ok := w.cmpRoles(be, true, ctpOf("Biggest"), w.isConst(0)); ok {
+					okv = op == token.LSS
 				}
 			case be.Op == token.LAND:
 				// prefixIsKey && DoesNotHave(...)
@@ -180,7 +181,7 @@ func ruleR05_3(c *Check) {
 			if g.Implicit || !g.Val {
 				continue
 			}
-			if be, ok := g.Cond.(*ast.BinaryExpr); ok && isCallNamed(w, be.X, "MaxVersion") && (be.Op == token.LSS || be.Op == token.LEQ) && w.fieldOf(be.Y) == since {
+			if op, ok := w.cmpRoles(g.Cond, true, func(e ast.Expr) bool { return isCallNamed(w, e, "MaxVersion") }, w.isField(since)); ok && (op == token.LSS || op == token.LEQ) {
 				okv = true
 			}
 			if isCallNamed(w, g.Cond, "DoesNotHave") {
@@ -398,6 +399,57 @@ func ruleR28_2(c *Check) {
 		return true
 	})
 	r.Check(perEntry >= 8, cs, "per-entry reserve covers the 8-byte version suffix", nil, "checkSize reserves only "+itoa(perEntry)+" extra bytes per entry")
+	// every accepted entry is charged: what checkSize stores into Txn.count / Txn.size is the old
+	// value plus one entry (plus its estimate), computed once and never reduced afterwards
+	// (an entry replaced in pendingWrites may still be sent through duplicateWrites).
+	for _, fld := range []*types.Var{w.Field("badger.Txn.count"), w.Field("badger.Txn.size")} {
+		for _, s := range cs.Sites(selStore(fld)) {
+			as, ok := s.(*ast.AssignStmt)
+			if !ok {
+				r.Check(false, cs, "accounting store is an assignment", s, "Txn."+fld.Name()+" is modified by something other than an assignment")
+				continue
+			}
+			for i, l := range as.Lhs {
+				if w.fieldOf(l) != fld || len(as.Rhs) != len(as.Lhs) {
+					continue
+				}
+				okAcc := as.Tok == token.ASSIGN
+				rhs := unparen(as.Rhs[i])
+				if id, isId := rhs.(*ast.Ident); isId && okAcc {
+					v, _ := w.Use(id).(*types.Var)
+					defs := w.DefsOf(cs, v)
+					okAcc = v != nil && len(defs) == 1
+					cs.walk(func(n ast.Node) bool {
+						if st, ok := n.(*ast.IncDecStmt); ok {
+							if x, ok := st.X.(*ast.Ident); ok && w.Use(x) == types.Object(v) {
+								okAcc = false
+							}
+						}
+						return true
+					})
+					if okAcc {
+						rhs = defs[0]
+					}
+				}
+				if okAcc {
+					a, b, okl := w.linear(cs, rhs, func(e ast.Expr) bool {
+						if w.fieldOf(e) == fld {
+							return true
+						}
+						c, isCall := e.(*ast.CallExpr)
+						return isCall && fld.Name() == "size" && w.Callee(c) == types.Object(w.Func("badger.Entry.estimateSizeAndSetThreshold"))
+					}, 0)
+					// count: old + 1; size: old + est + R, i.e. coefficient 2 over the two symbols
+					if fld.Name() == "count" {
+						okAcc = okl && a == 1 && b >= 1
+					} else {
+						okAcc = okl && a == 2 && b >= 8
+					}
+				}
+				r.Check(okAcc, cs, "every accepted entry is charged to Txn."+fld.Name(), as, "Txn."+fld.Name()+" is not `old + one entry`: entries that are still sent at commit (duplicateWrites) can go uncharged")
+			}
+		}
+	}
 	nt := w.F("badger.DB.newTransaction")
 	txnKey := w.Obj("badger.txnKey")
 	var initial int64 = -1
